@@ -174,8 +174,53 @@ def enumerations(ctx, rec):
     return fails
 
 
+def sequence_oracle(case):
+    """several messages processed one after the other (the codec classes live for the whole process): every step
+    must give the result the message gives in isolation - no state may be carried from one message to the next.
+    Half of the sequences re-use ONE message object per direction for all parse_msg() calls."""
+    reuse = {"tx": tk.new_msg("tx"), "rx": tk.new_msg("rx")} if case["reuse"] else None
+    n_ok = 0
+    for step in case["steps"]:
+        m, legacy, op = step["m"], step["legacy"], step["op"]
+        if op == "invalid":
+            # a refused message in between must not leave anything behind either
+            bad = dict(m, tn=9)
+            try:
+                tk.build_msg(bad).gen_msg(legacy)
+                raise Violation("c01:sequence:invalid-encoded", "tn=9 was encoded")
+            except ValueError:
+                continue
+        msg = tk.build_msg(m)
+        enc = bytes(msg.gen_msg(legacy))
+        if op == "encode_only":
+            continue
+        target = reuse[m["cls"]] if reuse else tk.new_msg(m["cls"])
+        try:
+            target.parse_msg(bytearray(enc) if m["cls"] == "rx" else enc)
+        except ValueError as e:
+            raise Violation("c01:sequence:own-encoding-rejected", "step %d: %r" % (n_ok, e))
+        got = tk.msg_fields(target)
+        for k, v in expected_fields(m).items():
+            if got.get(k) != v:
+                raise Violation("c01:sequence:field-differs:%s:%s" % (m["cls"], k),
+                                "step %d of a %d-step sequence (object re-use: %s): field %s encoded %r decoded %r" % (
+                                    n_ok, len(case["steps"]), case["reuse"], k, _short(v), _short(got.get(k))))
+        n_ok += 1
+    return (["seq/%d" % len(case["steps"]), "reuse" if case["reuse"] else "fresh"], len(case["steps"]) >= 2,
+            {"steps": [{"cls": x["m"]["cls"], "ver": x["m"]["ver"], "op": x["op"], "mod": x["m"].get("mod")} for x in case["steps"]]})
+
+
+seq_case = st.fixed_dictionaries({
+    "reuse": st.booleans(),
+    "steps": st.lists(st.fixed_dictionaries({"m": S.any_msg(), "legacy": st.booleans(),
+                                             "op": st.sampled_from(["roundtrip", "roundtrip", "roundtrip", "encode_only", "invalid"])}),
+                      min_size=2, max_size=6),
+})
+
+
 SUBS = [
     Sub("roundtrip", strategy=case_st, oracle=roundtrip, examples={"quick": 4000, "thorough": 160000}),
     Sub("enumerations", fn=enumerations),
+    Sub("message_sequences", strategy=seq_case, oracle=sequence_oracle, examples={"quick": 700, "thorough": 30000}),
 ]
 SUBS[1].replay = roundtrip
